@@ -1,10 +1,15 @@
 import Driver.Codec
+import TakVerif.Impl.Alloc
 namespace Driver
 open Tak
 
 /-- driver state: the Zobrist basis sent by the harness; per-module session state is added by the modules -/
 structure St where
   basis : Array W := Array.replicate 64 0#64
+  -- C09 session: heap model, slot -> object index (none = dead), and the pure shadow values
+  heap : Tak.Heap := {}
+  hslots : Array (Option Nat) := Array.replicate 16 none
+  pslots : Array (Option Pos) := Array.replicate 16 none
 deriving Inhabited
 
 /-- a handler returns `none` when the op is not its own -/
